@@ -48,6 +48,7 @@ func buildInputs(ctx *core.Ctx, paths []ModelPath, withRest bool) ([]Input, map[
 	add(ValueKindHazards())
 	add(LongTailInputs())
 	add(LiteralHazards(ctx.Thorough()))
+	add(MsgTextHazards(ctx.Thorough(), ctx.Seed))
 	// (c) prefixes and (d) token mutations of the corpus and of generated files
 	files, err := CorpusFiles()
 	if err != nil {
@@ -379,8 +380,12 @@ func (c *Confirmer) confirmOne(j confirmJob, in *Input, r *Result, dir string, k
 		switch {
 		case hung && len(in.Text) < 4096:
 			ok()
-			ctx.Violation(sig, fmt.Sprintf("%s did not return within 10 s in two fresh processes; both goroutine dumps (1 s apart) show the %s in %s; %d inputs of this run have this signature",
-				what, p1.Kind, p1.Frame1, len(j.all)), rp)
+			how := "did not return within 10 s in two fresh processes; both goroutine dumps (1 s apart)"
+			if p1.CutShort || p2.CutShort {
+				how = fmt.Sprintf("did not return in two fresh processes and drove the heap past 2 GB (%d MB after %d ms: the 10 s watchdog was cut short); both goroutine dumps", p1.HeapMB, p1.WaitedMs)
+			}
+			ctx.Violation(sig, fmt.Sprintf("%s %s show the %s in %s; %d inputs of this run have this signature",
+				what, how, p1.Kind, p1.Frame1, len(j.all)), rp)
 		case hung:
 			ok() // not judged (>= 4 KB), but reproduced: no slow lane
 			miss(" (input >= 4 KB: not judged)")
